@@ -65,6 +65,7 @@ class FnTranslator(ExprMixin):
                 raise self.uns('opcode method outside an abstract opcode class', node)
             fields = self.tr.opcode_classes[absname][1]
             ctx.opcode_fields = fields
+            ctx.opcode_class = absname
             env.vars['self'] = T.Var(None, ('opself', absname), alias=True)
             for f in fields:
                 params.append((f'f_{f}', T.TZ))
@@ -80,6 +81,7 @@ class FnTranslator(ExprMixin):
             if ty[0] == 'obj':
                 env.vars[p] = T.Var(None, ty, alias=True)
                 ctx.proc_name = p
+                out.state = 'machine'
                 continue
             if ty == T.TEXN:
                 env.vars[p] = T.Var('v_' + p, ty)
@@ -126,6 +128,7 @@ class FnTranslator(ExprMixin):
         if out.level < 2:
             out.state = None
         out.mutates_self = self.mutated_self
+        out.ro = is_ro(c)
         self.emit(c)
 
     def param_type(self, p, kind):
@@ -139,7 +142,7 @@ class FnTranslator(ExprMixin):
         table = {'perms': T.TRec('Permissions'), 'memaddrdesc': T.TRec('AddressDescriptor'),
                  's1desc': T.TRec('AddressDescriptor'), 's2desc': T.TRec('AddressDescriptor'),
                  's1_out_addr_desc': T.TRec('AddressDescriptor'), 'paddress': T.TRec('FullAddress'),
-                 'dabort_exception': T.TEXN, 'opcode': T.TOPC,
+                 'dabort_exception': T.TEXN, 'opcode': T.TOpt(T.TOPC),
                  'memaddrdesc_size': T.TTup([T.TRec('AddressDescriptor'), T.TZ]),
                  'address_size': T.TTup([T.TZ, T.TZ])}
         if ann in T.RECORD_CLASSES:
@@ -342,6 +345,19 @@ class FnTranslator(ExprMixin):
                     body = Let(tv, t, body)
                 return self.wrap_pre(pres, body)
             pre, term, ty = self.expr(value, env)
+            if ty in (T.TUNIT, T.TNONE, T.TZ):
+                # unpacking a non-iterable: TypeError
+                env2 = env.copy()
+                body_names = []
+                for tg in target.elts:
+                    if not isinstance(tg, ast.Name):
+                        raise self.uns('tuple target', st)
+                    env2.vars[tg.id] = T.Var('v_' + tg.id, T.TZ)
+                    body_names.append('v_' + tg.id)
+                c = k(env2)
+                for nm in body_names:
+                    c = Let(nm, '0', c)
+                return self.wrap_pre(pre, Bind('_', Raise('EHost HType', 1), c))
             if ty[0] != 'tup' or len(ty[1]) != len(target.elts):
                 raise self.uns(f'unpacking non-tuple {ty}', st)
             env2 = env.copy()
@@ -376,6 +392,9 @@ class FnTranslator(ExprMixin):
             return self.stmts(st.body if self.ctx.partial[key] else st.orelse, env,
                               k, live) if (st.body if self.ctx.partial[key] else st.orelse) else k(env)
         pre, b = self.cond(st.test, env)
+        nar = self.narrowing(st.test, env)
+        if nar:
+            return self.wrap_pre(pre, self.if_narrowed(st, b, nar, env, k, live))
         ta = T.always_terminates(st.body)
         tb = T.always_terminates(st.orelse) if st.orelse else False
         if ta and tb:
@@ -432,6 +451,91 @@ class FnTranslator(ExprMixin):
                 return self.wrap_pre(pre, k(env2))
             return self.wrap_pre(pre, Bind('_', inner, k(env2)))
         return self.wrap_pre(pre, Bind(pat, If(b, ca, cb), k(env2)))
+
+    def narrowing(self, test, env):
+        """`if x is not None` / `if x is None` / `if x` / `if not x` on an option-typed local"""
+        def optvar(n):
+            return isinstance(n, ast.Name) and n.id in env.vars and not env.vars[n.id].alias and \
+                not env.vars[n.id].optional and env.vars[n.id].ty[0] == 'opt'
+        if isinstance(test, ast.Compare) and len(test.ops) == 1 and optvar(test.left) and \
+                isinstance(test.comparators[0], ast.Constant) and test.comparators[0].value is None:
+            if isinstance(test.ops[0], ast.IsNot):
+                return (test.left.id, 'body')
+            if isinstance(test.ops[0], ast.Is):
+                return (test.left.id, 'else')
+        if optvar(test):
+            return (test.id, 'body')
+        if isinstance(test, ast.UnaryOp) and isinstance(test.op, ast.Not) and optvar(test.operand):
+            return (test.operand.id, 'else')
+        return None
+
+    def default_of(self, ty):
+        if ty in (T.TZ, T.TCCLS, T.TDevRef()):
+            return '0'
+        if ty == T.TOPC:
+            return '(0, [])'
+        if ty[0] == 'rec':
+            return 'new_' + ty[1]
+        if ty == T.TBYTES:
+            return '[]'
+        raise self.uns(f'no default for {ty}')
+
+    def if_narrowed(self, st, b, nar, env, k, live):
+        var, which = nar
+        v = env.vars[var]
+        inner = v.ty[1]
+        nenv = env.copy()
+        nenv.vars[var] = T.Var(v.coq, inner)
+        fake = ast.If(test=ast.Constant(value=True), body=st.body, orelse=st.orelse)
+        ast.copy_location(fake, st)
+        # translate as an ordinary if whose condition is already computed, with one branch narrowed
+        body_env = nenv if which == 'body' else env
+        else_env = nenv if which == 'else' else env
+        narrow_let = lambda c: Let(v.coq, f'unsome {self.default_of(inner)} {v.coq}', c)  # noqa: E731
+        return self.if_core(st, b, body_env, else_env, env, k, live,
+                            wrap_body=narrow_let if which == 'body' else None,
+                            wrap_else=narrow_let if which == 'else' else None)
+
+    def if_core(self, st, b, benv, eenv, env, k, live, wrap_body=None, wrap_else=None):
+        wb = wrap_body or (lambda c: c)
+        we = wrap_else or (lambda c: c)
+        ta = T.always_terminates(st.body)
+        tb = T.always_terminates(st.orelse) if st.orelse else False
+        if ta and tb:
+            return If(b, wb(self.stmts(st.body, benv.copy(), lambda e: self.unreachable(), live)),
+                      we(self.stmts(st.orelse, eenv.copy(), lambda e: self.unreachable(), live)))
+        if ta:
+            return If(b, wb(self.stmts(st.body, benv.copy(), lambda e: self.unreachable(), live)),
+                      we(self.stmts(st.orelse, eenv.copy(), k, live)))
+        if tb:
+            return If(b, wb(self.stmts(st.body, benv.copy(), k, live)),
+                      we(self.stmts(st.orelse, eenv.copy(), lambda e: self.unreachable(), live)))
+        if T.contains_return(st.body + st.orelse):
+            raise self.uns('narrowing if with early return and fall-through', st)
+        assigned = T.assigned_names(st.body + st.orelse)
+        jvars = [v for v in assigned if v in live]
+        jvars = [v for v in jvars if not (v in env.vars and env.vars[v].alias)]
+        ends = []
+
+        def cap(e):
+            ends.append(e)
+            return Hole(len(ends) - 1)
+
+        ca = self.stmts(st.body, benv.copy(), cap, live)
+        cb = self.stmts(st.orelse, eenv.copy(), cap, live) if st.orelse else cap(eenv.copy())
+        jinfo = self.join_info(jvars, env, ends, st)
+        terms = [self.join_tuple(jinfo, e, st) for e in ends]
+        ca = wb(self.fill_holes(ca, terms))
+        cb = we(self.fill_holes(cb, terms))
+        env2 = env.copy()
+        for (v, ty, opt) in jinfo:
+            env2.vars[v] = T.Var('v_' + v, ty, optional=opt)
+        if not jinfo:
+            inner = If(b, ca, cb)
+            if inner.level == 0:
+                return k(env2)
+            return Bind('_', inner, k(env2))
+        return Bind(self.join_pat(jinfo), If(b, ca, cb), k(env2))
 
     def writes_self(self, stmts):
         for st in stmts:
